@@ -4,7 +4,9 @@ Shape (C): full Cartesian product
     image shape x aperture (6 classes x sizes, some rotated) x method x
     64 positions (inside / straddling every edge / outside) x
     mask (None, EVERY single-pixel mask, row, column, all-but-one, all; 3x3: ALL 512 masks) x
-    data variant (finite, one NaN, +inf/-inf) x error (None, generic)
+    data variant (finite, one NaN, +inf/-inf) x error (None, generic finite; on the call-form sub-product of masks also
+    a map with NaN / +inf / -inf at three fixed pixels -- summed by some positions, masked / zero-weight for others --
+    and, in the blindness relations, NaN / +inf / -inf at EVERY masked resp. not-summed pixel)
 executed through ``PixelAperture.do_photometry`` / ``area_overlap`` and, on a
 stated sub-product, through every other call form (scalar aperture one at a
 time, ``aperture_photometry`` single / list of two apertures / NDData /
@@ -33,7 +35,8 @@ LEVEL = 'exploration'
 RULE = ('full Cartesian product of image shape x aperture spec x method x position list (8x8 axis alphabet) x mask '
         'alphabet x data variant x error form, every case executed on the real code; one evaluation = one '
         '(configuration, position) comparison with the direct pixel loop (metamorphic call-form relations are counted '
-        'per position as well); a case is non-trivial when at least one unmasked in-image pixel has positive aperture '
+        'per position as well; on the call-form sub-product of masks the error axis has a third element, a map with '
+        'NaN/+inf/-inf at three fixed pixels, judged by the same direct loop); a case is non-trivial when at least one unmasked in-image pixel has positive aperture '
         'weight (measured from the registered weights); cases are distinct by construction (distinct product indices)')
 ASSUMPTIONS = ['the per-pixel weights returned by Aperture.to_mask() and its bbox are correct (decided by C01); this check '
                'owns where they land in the image and which pixels are summed',
@@ -122,14 +125,41 @@ def images(shape, seed):
     di = d.copy()
     di[0, 0] = np.inf
     di[ny - 1, nx - 1] = -np.inf if (ny * nx > 1) else np.inf
-    return {'finite': d, 'nan': dn, 'inf': di, 'second': d2, 'err': e}
+    # error map with non-finite values at three fixed pixels (centre, first, last): whether such a pixel is summed
+    # (-> sum_err NaN resp. inf, what the quadrature sum gives) or excluded (-> no influence) depends on position and mask
+    enf = e.copy()
+    enf[ny // 2, nx // 2] = np.nan
+    if ny * nx > 1:
+        enf[0, 0] = np.inf
+        enf[ny - 1, nx - 1] = -np.inf
+    return {'finite': d, 'nan': dn, 'inf': di, 'second': d2, 'err': e, 'errnf': enf}
+
+
+_FILL_CACHE = {}
+
+
+def error_fill(shape, fill):
+    key = (tuple(shape), repr(fill))
+    if key not in _FILL_CACHE:
+        _FILL_CACHE[key] = _error_fill(shape, fill)
+    return _FILL_CACHE[key]          # read-only use (indexed / copied by the callers)
+
+
+def _error_fill(shape, fill):
+    """Error values written into excluded pixels by the blindness relations: the data fill value, except that for the
+    NaN fill the error cycles through NaN, +inf, -inf by pixel index (0 * NaN and 0 * inf are both NaN)."""
+    ny, nx = shape
+    if fill == fill:
+        return np.full(shape, fill)
+    cyc = [np.nan, np.inf, -np.inf]
+    return np.array([[cyc[(iy * nx + ix) % 3] for ix in range(nx)] for iy in range(ny)])
 
 
 # call form -> the block of the check that executes it (used by replay to re-run exactly that block)
 GROUP = {'do_photometry': 'main', 'area_overlap': 'main', 'list-call': 'forms', 'scalar': 'scalar', 'scalar-area': 'scalar',
          'get_values': 'mask-methods', 'multiply': 'mask-methods', 'mask-methods': 'mask-methods', 'blind': 'blind',
          'linear': 'linear', 'table': 'table', 'aperture_photometry': 'table', 'aperture-list': 'table', 'nddata': 'table',
-         'nddata-unit': 'table', 'quantity': 'table', 'sky': 'table'}
+         'nddata-unit': 'table', 'quantity': 'table', 'sky': 'table', 'error-nonfinite': 'error-nonfinite'}
 
 
 class Ctx:
@@ -159,11 +189,11 @@ class Ctx:
         return f'{form}:{c}' + (':mask' if bits else '') + (':nonfinite' if variant != 'finite' else '')
 
 
-def expected(ctx, k, bits, variant, with_err):
-    return R.ref_sums(ctx.reg[k][1], ctx.lst[variant], ctx.lst['err'] if with_err else None, bits or 0, ctx.nx)
+def expected(ctx, k, bits, variant, with_err, errkey='err'):
+    return R.ref_sums(ctx.reg[k][1], ctx.lst[variant], ctx.lst[errkey] if with_err else None, bits or 0, ctx.nx)
 
 
-def compare_sums(acc, ctx, bits, variant, with_err, form, sums, errs, only=None):
+def compare_sums(acc, ctx, bits, variant, with_err, form, sums, errs, only=None, errkey='err'):
     """Compare arrays of per-position results with the direct pixel loop."""
     npos = len(ctx.pos)
     if np.shape(sums) != (npos,) or (with_err and np.shape(errs) != (npos,)):
@@ -171,7 +201,7 @@ def compare_sums(acc, ctx, bits, variant, with_err, form, sums, errs, only=None)
                       [np.shape(sums), np.shape(errs)], (npos,))
         return
     for k in (range(npos) if only is None else only):
-        s, e, a, sabs, n = expected(ctx, k, bits, variant, with_err)
+        s, e, a, sabs, n = expected(ctx, k, bits, variant, with_err, errkey)
         acc.evaluations += 1
         if n:
             acc.nontrivial += 1
@@ -180,7 +210,7 @@ def compare_sums(acc, ctx, bits, variant, with_err, form, sums, errs, only=None)
                 else 'sum'
             acc.violation(clause, ctx.site(form, k, bits, variant), ctx.case(k, bits, variant, with_err, form),
                           float(sums[k]), s, f'direct sum over {n} pixels; class {ctx.cls[k]}')
-        if with_err and not R.same(errs[k], e, RTOL * (e if e == e else 0.0) + 1e-300):
+        if with_err and not R.same(errs[k], e, RTOL * (e if e == e and e != math.inf else 0.0) + 1e-300):
             acc.violation('sum_err', ctx.site(form, k, bits, variant), ctx.case(k, bits, variant, with_err, form),
                           float(errs[k]), e, f'direct quadrature sum over {n} pixels; class {ctx.cls[k]}')
 
@@ -343,20 +373,22 @@ def run_forms(acc, ctx, tier, only_case=None):
                     if mask is not None:
                         dd = data.copy()
                         dd[mask] = fill
-                        r = call(acc, ctx, bits, variant, True, 'blind', lambda: ctx.aper.do_photometry(dd, error=err, mask=mask, **ctx.kw))
+                        em = err.copy()
+                        em[mask] = error_fill(ctx.shape, fill)[mask]
+                        r = call(acc, ctx, bits, variant, True, 'blind', lambda: ctx.aper.do_photometry(dd, error=em, mask=mask, **ctx.kw))
                         acc.evaluations += npos
                         acc.nontrivial += npos
                         if r is not None and not (bitsame(r[0], multi[0]) and bitsame(r[1], multi[1])):
                             k = int(np.flatnonzero(~((r[0] == multi[0]) | (np.isnan(r[0]) & np.isnan(multi[0]))))[0]) if not bitsame(r[0], multi[0]) else 0
                             acc.violation('masked-value-blind', ctx.site('do_photometry', k, bits, variant),
                                           ctx.case(k, bits, variant, True, 'blind'), float(r[0][k]), float(multi[0][k]),
-                                          f'masked pixels overwritten with {fill}')
+                                          f'masked pixels overwritten with {fill} (data; error: NaN/+inf/-inf cycled for the nan fill)')
                     for k, p in enumerate(ctx.pos):
                         box, wl = ctx.reg[k]
                         if wl is None:
                             continue
                         dd = np.full(ctx.shape, fill)
-                        ee = np.full(ctx.shape, fill)
+                        ee = error_fill(ctx.shape, fill).copy()
                         for iy, ix, w in wl:
                             if w > 0 and not ((bits or 0) >> (iy * ctx.nx + ix)) & 1:
                                 dd[iy, ix] = data[iy, ix]
@@ -370,6 +402,16 @@ def run_forms(acc, ctx, tier, only_case=None):
                                           ctx.case(k, bits, variant, True, 'blind'), [float(r[0][0]), float(r[1][0])],
                                           [float(multi[0][k]), float(multi[1][k])],
                                           f'every pixel outside the summed set overwritten with {fill} (data and error)')
+
+            # error map with NaN / +inf / -inf at three fixed pixels: sum_err is the quadrature sum over exactly the summed
+            # pixels -- unchanged where those pixels are masked / zero-weight / outside the box, NaN resp. inf where summed
+            if want('error-nonfinite'):
+                enf = ctx.img['errnf']
+                r = call(acc, ctx, bits, variant, True, 'error-nonfinite',
+                         lambda: ctx.aper.do_photometry(data, error=enf, mask=mask, **ctx.kw))
+                if r is not None:
+                    compare_sums(acc, ctx, bits, variant, True, 'error-nonfinite', r[0], r[1], errkey='errnf',
+                                 only=[only_case['pos_index']] if only_case else None)
 
             if variant != 'finite':
                 continue
@@ -539,8 +581,11 @@ def describe(tier, seed):
                          'positions': 'x, y in {-3, -0.5, 0, 0.3, mid+generic, n-1, n-0.5, n+3} (full 8x8 grid, duplicates removed)',
                          'masks': 'None, every single-pixel mask, middle row, middle column, all-but-one, all; 3x3: all 512 '
                                   '(quick: on finite data with error; thorough: every variant)',
-                         'data_variants': VARIANTS, 'error': ['generic', None],
+                         'data_variants': VARIANTS,
+                         'error': ['generic finite', None, 'call-form sub-product: NaN/+inf/-inf at (centre, first, last) pixel '
+                                   '(form error-nonfinite, direct oracle); blindness relations: NaN/+inf/-inf cycled over every '
+                                   'masked pixel (list call) resp. every not-summed pixel (scalar apertures)'],
                          'call_forms': 'do_photometry/area_overlap (full product); scalar one-at-a-time, get_values/multiply, '
-                                       'blindness, linearity, aperture_photometry single on masks {None, centre pixel, all-but-centre}; '
+                                       'blindness, non-finite error map, linearity, aperture_photometry single on masks {None, centre pixel, all-but-centre}; '
                                        'list of 2 apertures, NDData (+unit), Quantity, Sky+TAN WCS on masks {None, centre pixel} (thorough: all three)'},
             'bound': {'units': len(plan(tier, seed)), 'positions_per_unit': 64}}
